@@ -199,6 +199,13 @@ func genAnn(rng *rand.Rand) map[string]string {
 			ann[kPlace] = pick(rng, []string{"front", "", "both"})
 		}
 	}
+	// per path features of siblings that bring conditions on the method into the backend
+	if rng.Intn(5) == 0 {
+		ann["cors-enable"] = "true"
+		if rng.Intn(2) == 0 {
+			ann["cors-allow-origin"] = "https://a.example,https://b.example"
+		}
+	}
 	// present but empty or blank: the way to opt out of a value of the global ConfigMap
 	if rng.Intn(8) == 0 {
 		k := pick(rng, []string{kURL, kURL, kOAuth, kPlace, kPrefix})
@@ -370,6 +377,12 @@ func corpus() []input {
 		// oauth-uri-prefix "/" : the allowed path would be "/"
 		{Kind: "pipeline", PathType: "Prefix", Services: svcs, Ingresses: []ingIn{
 			{Name: "ing1", Ann: annOf(kOAuth, "oauth2_proxy", kPrefix, "/"), Rules: r("h1.local", "/", "app1")}, oauthIng}},
+		// a protected path sharing its backend with a path that enables CORS
+		{Kind: "pipeline", PathType: "Prefix", Services: svcs, Ingresses: []ingIn{
+			{Name: "ing1", Ann: annOf("cors-enable", "true"), Rules: r("d1.local", "/api", "app1")},
+			{Name: "ing2", Ann: annOf(kURL, "http://10.0.0.2:8000/auth"), Rules: r("d1.local", "/admin", "app1")},
+			{Name: "ing3", Ann: annOf(kOAuth, "oauth2_proxy", "cors-enable", "true"), Rules: r("d1.local", "/both", "app1")},
+			{Name: "ingoauth", Rules: r("d1.local", "/oauth2", "oauth2proxy")}}},
 		// empty auth-proxy range
 		{Kind: "pipeline", PathType: "Prefix", Global: map[string]string{"auth-proxy": "_front__auth__local:14420-14410"}, Services: svcs, Ingresses: []ingIn{
 			{Name: "ing1", Ann: annOf(kURL, "http://10.0.0.2:8000/auth"), Rules: r("h1.local", "/app", "app1")}}},
@@ -760,29 +773,41 @@ func oraclePipeline(in input, obs *pipeObs) []fail {
 				continue
 			}
 			rules := append(c1819.ParseAuthRules(fsec.Lines), beRules...)
+			served := false
 			for i, u := range probes(in, po.Host, po.Path) {
 				if po.Allowed != "" && strings.HasPrefix(u, po.Allowed) {
 					continue // the oauth sign-in prefix is exempt by design of the declaration
 				}
-				q := c1819.Request{Base: strings.ToLower(po.Host) + "#" + u, Path: u, PathID: po.PathID}
-				// a client every authentication service rejects
-				v := c1819.RunAuth(rules, q, func(string) bool { return false })
-				if v.Served {
-					key := "rendered-rule-missing"
-					if i > 0 && feProt && !beProt {
-						// the exact path is covered, this request of the same path is not,
-						// and only the frontend holds the rule
-						key = "frontend-rule-exact-match-only"
-					} else if i > 0 {
-						key = "rendered-rule-misses-request"
+				for _, meth := range []string{"GET", "POST", "OPTIONS", "HEAD", "PUT"} {
+					q := c1819.Request{Base: strings.ToLower(po.Host) + "#" + u, Path: u, PathID: po.PathID, Method: meth}
+					// a client every authentication service rejects
+					v := c1819.RunAuth(rules, q, func(string) bool { return false })
+					if v.Served {
+						key := "rendered-rule-missing"
+						switch {
+						case meth != "GET":
+							// the same request with GET is covered: a condition on the method
+							key = "rendered-rule-skips-method"
+						case i > 0 && feProt && !beProt:
+							// the exact path is covered, this request of the same path is not,
+							// and only the frontend holds the rule
+							key = "frontend-rule-exact-match-only"
+						case i > 0:
+							key = "rendered-rule-misses-request"
+						}
+						fs = append(fs, fail{key, fmt.Sprintf("%s: %s %s%s through %s is served without authentication (no deny, no auth-intercept+deny applies)", id, meth, po.Host, u, fe)})
+						served = true
+						break
 					}
-					fs = append(fs, fail{key, fmt.Sprintf("%s: GET %s%s through %s is served without authentication (no deny, no auth-intercept+deny applies)", id, po.Host, u, fe)})
-					break
+					// a client only the other services accept
+					v = c1819.RunAuth(rules, q, func(n string) bool { return !own[n] })
+					if v.Served {
+						fs = append(fs, fail{"rendered-rule-other-service", fmt.Sprintf("%s: %s %s%s through %s is served when only foreign auth services accept it (%v ran)", id, meth, po.Host, u, fe, v.Checked)})
+						served = true
+						break
+					}
 				}
-				// a client only the other services accept
-				v = c1819.RunAuth(rules, q, func(n string) bool { return !own[n] })
-				if v.Served {
-					fs = append(fs, fail{"rendered-rule-other-service", fmt.Sprintf("%s: GET %s%s through %s is served when only foreign auth services accept it (%v ran)", id, po.Host, u, fe, v.Checked)})
+				if served {
 					break
 				}
 			}
